@@ -161,7 +161,7 @@ def try_refute(prop, v, repo, seed):
     if unit in ("S64", "S32"):
         r = refute_scalar(64 if unit == "S64" else 32, name, repo, seed)
         return r if r is not None else refute_papi(unit, name, repo, seed)
-    if unit in ("ED", "RIS", "MONT", "SG", "SGR", "SM", "SM2", "SIG", "FG", "GRP", "MSM", "VSM", "VMSM", "AVX2E", "AVX2F", "BATCH", "K-SERDE", "RIS2", "SMNT", "BV", "IFMAE", "IFMAF", "TRS", "HW"):
+    if unit in ("ED", "RIS", "MONT", "SG", "SGR", "SM", "SM2", "SIG", "FG", "GRP", "MSM", "VSM", "VMSM", "AVX2E", "AVX2F", "BATCH", "K-SERDE", "RIS2", "SMNT", "BV", "IFMAE", "IFMAF", "TRS", "HW", "RND"):
         return refute_papi(unit, name, repo, seed)
     return None
 
@@ -374,7 +374,7 @@ def _scalars(rng, n_random=12):
 
 
 _FAMS = {"ED": ["ed"], "RIS": ["ris"], "MONT": ["mont"], "SG": ["sc"], "S64": ["sc"], "S32": ["sc"], "SGR": ["sc", "edmul"], "SM": ["edmul"], "SM2": ["edmul", "ed"], "MSM": ["edmul"], "VSM": ["edmul"], "VMSM": ["edmul"], "AVX2E": ["ed", "edmul"], "AVX2F": ["ed", "edmul"],
-            "SIG": ["sig", "slices"], "BV": ["sig", "slices"], "K-SERDE": ["serde"], "TRS": ["edmul", "sc"], "HW": ["sc", "ris", "ed"], "RIS2": ["ris", "edmul"], "SMNT": ["edmul", "sig"], "IFMAE": ["ed", "edmul"], "IFMAF": ["ed", "edmul"], "GRP": ["grp", "ed", "ris"], "FG": ["ed", "ris"], "F64": ["ed"], "F32": ["ed"]}
+            "SIG": ["sig", "slices"], "BV": ["sig", "slices"], "K-SERDE": ["serde"], "TRS": ["edmul", "sc"], "HW": ["sc", "ris", "ed"], "RND": ["rnd", "sc", "ris"], "RIS2": ["ris", "edmul"], "SMNT": ["edmul", "sig"], "IFMAE": ["ed", "edmul"], "IFMAF": ["ed", "edmul"], "GRP": ["grp", "ed", "ris", "rnd"], "FG": ["ed", "ris"], "F64": ["ed"], "F32": ["ed"]}
 
 
 def families_of(unit):
@@ -407,7 +407,7 @@ def _refute_papi_1(unit, fn, repo, seed, backend):
     def add(rq, ex):
         reqs.append(rq); exps.append(ex)
 
-    fams = _FAMS.get(unit, ["ed", "ris", "mont", "sc", "edmul", "sig", "slices", "grp"])
+    fams = _FAMS.get(unit, ["ed", "ris", "mont", "sc", "edmul", "sig", "slices", "grp", "rnd"])
     valid_pts = []
     for b in encs:
         a = O.ed_decode(b)
@@ -627,6 +627,18 @@ def _refute_papi_1(unit, fn, repo, seed, backend):
         rou = pow(2, t, O.L)
         add("grp.consts", "%s %s %s %s %s" % (_h(rou.to_bytes(32, "little")), _h(pow(rou, O.L - 2, O.L).to_bytes(32, "little")), _h(pow(2, O.L - 2, O.L).to_bytes(32, "little")),
                                             _h((16).to_bytes(32, "little")), _h((2).to_bytes(32, "little"))))
+    if "rnd" in fams:
+        # RNG-driven constructors: the replay's FixedRng repeats a 32-byte seed, so the 64 octets drawn are seed || seed
+        for sv in _scalars(rng, 3):
+            sd = (sv % 2**256).to_bytes(32, "little")
+            w = int.from_bytes(sd + sd, "little")
+            e = _h((w % O.L).to_bytes(32, "little"))
+            add("rnd.scalar %s" % _h(sd), "%s %s" % (e, e))
+            e = _h(O.r255_one_way(sd + sd))
+            add("rnd.ris %s" % _h(sd), "%s %s" % (e, e))
+        for (b1, a1) in valid_pts[:24]:
+            if a1 != O.ID and O.ed_encode(a1) == b1:
+                add("rnd.ed %s" % _h(b1), _h(b1))
     got = _ask(binary, reqs)
     if len(got) != len(reqs):
         return None
